@@ -333,7 +333,7 @@ def bounded_adaptive_runs(tier, seed):
             est = L.status.get('error_embedded_estimate')
             if est is None:
                 est = L.status.get('error_extrapolation_estimate')
-            rec.append(dict(t=L.time, dt=L.dt, restart=bool(step.status.restart), est=None if est is None else float(est), slot=step.status.slot,
+            rec.append(dict(t=L.status.time, dt=L.params.dt, restart=bool(step.status.restart), est=None if est is None else float(est), slot=step.status.slot,
                             rir=int(step.status.get('restarts_in_a_row') or 0), dt_new=L.status.dt_new, iter=step.status.iter))
 
     problems = [('vdp_nonstiff', vanderpol, dict(mu=1.0, u0=np.array([2.0, 0.0]), newton_tol=1e-10, newton_maxiter=50, crash_at_maxiter=False), 0.5, 1e-1),
